@@ -57,10 +57,8 @@ def _fresh_instance_var(f):
     return None, None
 
 
-def _site(prog, rep, q, container, stacked_kind):
-    """One slice-building loop, decided by symbolic evaluation of the loop body (sa/symexec.py): whatever the temporaries are
-    called and however the arithmetic is spelled, the stored slice must be slice(S, S + W), the offset must become S + W, S
-    must be 0 on entry, and W must be the column count of the very block that is stacked in that iteration."""
+def loop_model(prog, q, container):
+    """abstract evaluation of the slice-building loop of function q: dict(f, lp, tv, it, container, pre, ex, body)"""
     from .. import symexec as SX
 
     f = prog.fn(q)
@@ -106,7 +104,7 @@ def _site(prog, rep, q, container, stacked_kind):
     if key_var:
         env_in[key_var] = SX.Opaque(f"{tv}.name")
     for v in carried:
-        env_in[v] = SX.atom(f"{v}@in")
+        env_in[v] = SX.atom(f"{v}__in")
     # `if c: ...; continue` + rest  ==  `if c: ... else: rest`: bring the body into if/else form first
     import copy as _copy0
     from ..canon import _else_form
@@ -126,6 +124,17 @@ def _site(prog, rep, q, container, stacked_kind):
         ex = SX.SymExec(env_in).run(lbody)
     except AnalysisError as e:
         raise AnalysisError(f"{q}: {e}")
+    return dict(f=f, lp=lp, tv=tv, it=it, container=container, pre=pre, ex=ex, body=body, coll=coll)
+
+
+def _site(prog, rep, q, container, stacked_kind):
+    """One slice-building loop, decided by symbolic evaluation of the loop body (sa/symexec.py): whatever the temporaries are
+    called and however the arithmetic is spelled, the stored slice must be slice(S, S + W), the offset must become S + W, S
+    must be 0 on entry, and W must be the column count of the very block that is stacked in that iteration."""
+    from .. import symexec as SX
+
+    M = loop_model(prog, q, container)
+    f, lp, tv, it, container, pre, ex, body, coll = (M[k] for k in ("f", "lp", "tv", "it", "container", "pre", "ex", "body", "coll"))
     stores = [e for e in ex.effects if e[0] == "store" and e[1][0] == f"{container}.slices"]
     ok = len(stores) == 1 and stores[0][2] == () and stores[0][1][1] == f"{tv}.name"
     obl(rep, f, stores[0][1][3] if stores else lp, "R17.1", ok,
@@ -136,9 +145,9 @@ def _site(prog, rep, q, container, stacked_kind):
     S = None
     if ok:
         lo = val.lo
-        ok = isinstance(lo, SX.Lin) and lo.c == 0 and len(lo.t) == 1 and list(lo.t.values()) == [1] and list(lo.t)[0].endswith("@in")
+        ok = isinstance(lo, SX.Lin) and lo.c == 0 and len(lo.t) == 1 and list(lo.t.values()) == [1] and list(lo.t)[0].endswith("__in")
         if ok:
-            S = list(lo.t)[0][:-3]
+            S = list(lo.t)[0][:-4]
     obl(rep, f, stores[0][1][3] if stores else lp, "R17.1", ok,
         "the stored slice starts at the running offset (a variable carried from one iteration to the next)",
         f"offset variable `{S}`", f"stored value is `{SX.render(val) if val is not None else '?'}`")
